@@ -29,6 +29,8 @@ def run(ctx):
     n2 = R.mode_pair_honoured(rep, F, E, wpr)
     n3 = S.no_resign_after_rounding(rep, F, E, fns + wpr)
     rep.floor('PROV-CTX final sinks', n1 + n2, 5)
+    nrt = S.rounding_term_sign(rep, F)
+    rep.floor('rounding-term call sites', nrt, 2)
     # the two-operand sum hands the EXACT sum a + b to the rounding routine on every path
     exact.prepare(F)
     for f in fns:
